@@ -21,11 +21,11 @@ def putPath : List Row := path locksetTable "DB.Put" (List.range' 1 20 ++ List.r
 /-- `DB.Stat` -/
 def statPath : List Row := path locksetTable "DB.Stat" (List.range' 0 8)
 /-- `DB.Get`, key found in an older file -/
-def getPath : List Row := path locksetTable "DB.Get" (1 :: List.range' 3 7)
+def getPath : List Row := path locksetTable "DB.Get" ([1, 2] ++ List.range' 5 6)
 /-- `DB.Merge`, the path that reaches the final `return nil` (one record examined) -/
 def mergePath : List Row :=
   path locksetTable "DB.Merge"
-    ([0, 1] ++ List.range' 4 6 ++ List.range' 12 9 ++ [26, 27, 28, 29, 50, 87, 88, 89, 90])
+    ([0, 1] ++ List.range' 4 6 ++ List.range' 12 9 ++ [26, 27, 28, 29, 55, 56, 57, 94, 95, 96, 97])
 /-- a batch session: `NewBatch`, one `Batch.Put` that flushes, `Commit` -/
 def batchSession : List Row :=
   path locksetTable "DB.NewBatch" [0, 1] ++
@@ -40,7 +40,7 @@ example :
     runsFrom dbAct (· == .none) .none putPath = true ∧ putPath.length = 25 ∧
     runsFrom dbAct (· == .none) .none statPath = true ∧
     runsFrom dbAct (· == .none) .none getPath = true ∧
-    runsFrom dbAct (· == .none) .none mergePath = true ∧ mergePath.length = 26 ∧
+    runsFrom dbAct (· == .none) .none mergePath = true ∧ mergePath.length = 28 ∧
     runsFrom dbAct (· == .none) .none batchSession = true ∧ batchSession.length = 67 ∧
     (putPath.map dbAct).contains (.write "reclaimSize") = true ∧
     (statPath.map dbAct).contains (.read "reclaimSize") = true := by decide
